@@ -51,6 +51,23 @@ TECHNIQUE = ('path enumeration + canonical atoms + world enumeration (typestate 
 # R1 / R2: the scheduler protocol
 # ---------------------------------------------------------------------------
 
+def _positional(call: ast.Call, callee: T.Any) -> T.Optional[T.List[ast.AST]]:
+    """Arguments of an internal call in the callee's parameter order (keyword arguments bound by name); None if not bindable."""
+    params = [a.arg for a in callee.args.posonlyargs + callee.args.args + callee.args.kwonlyargs if a.arg not in ('self', 'cls')]
+    if any(isinstance(a, ast.Starred) for a in call.args) or any(k.arg is None for k in call.keywords) or len(call.args) > len(params):
+        return None
+    out: T.List[T.Optional[ast.AST]] = list(call.args) + [None] * (len(params) - len(call.args))
+    for k in call.keywords:
+        if k.arg not in params or out[params.index(k.arg)] is not None:
+            return None
+        out[params.index(k.arg)] = k.value
+    while out and out[-1] is None:
+        out.pop()
+    if any(x is None for x in out):
+        return None
+    return T.cast(T.List[ast.AST], out)
+
+
 class Sched:
     """Resolved structure of TestHarness._run_tests."""
 
@@ -91,10 +108,10 @@ class Sched:
 
     def is_barrier_all(self, c: ast.Call) -> T.Optional[str]:
         """`await complete_all(F)` without a timeout -> F."""
-        if id(c) in self.awaited and isinstance(c.func, ast.Name) and c.func.id == 'complete_all' and c.args and isinstance(c.args[0], ast.Name):
-            extra = list(c.args[1:]) + [k.value for k in c.keywords]
-            if all(isinstance(x, ast.Constant) and x.value is None for x in extra):
-                return c.args[0].id
+        if id(c) in self.awaited and isinstance(c.func, ast.Name) and c.func.id == 'complete_all':
+            args = _positional(c, self.mod.func('complete_all'))
+            if args and isinstance(args[0], ast.Name) and all(isinstance(x, ast.Constant) and x.value is None for x in args[1:]):
+                return args[0].id
         return None
 
 
@@ -120,13 +137,16 @@ def r1(ctx: RuleCtx) -> None:
     # (a) scheduling sites: only in the per-runner loop, only for the loop's runner
     ctx.floor('scheduling call sites', len(s.sites), 1)
     if not s.sites:
-        ctx.violation(mod, fq, 'no call of ' + '/'.join(s.closures), 'the runner closure is never scheduled: no test is started')
+        refs = [n for n in ast.walk(s.fn) if isinstance(n, ast.Name) and n.id in s.closures and isinstance(n.ctx, ast.Load)]
+        if refs:
+            raise Undecided(f'_run_tests: the runner closure is handed on as a value ({short(refs[0])}), not called')
+        ctx.violation(mod, fq, 'no call of ' + '/'.join(s.closures), 'the runner closure is never called or referenced: no test is started')
     # a plain nested function that schedules its own parameter ("starter") is followed: its calls are the scheduling sites
     starters: T.Dict[str, T.Any] = {}
     for name, nfn in s.nested.items():
         if isinstance(nfn, ast.FunctionDef) and name not in s.closures and len(nfn.args.args) == 1:
             inner = [c for c in walk_no_nested(nfn) if any(c is x for x in s.sites)]
-            if inner and all(len(c.args) == 1 and isinstance(c.args[0], ast.Name) and c.args[0].id == nfn.args.args[0].arg for c in inner):
+            if inner and all(_site_arg(s, c) == nfn.args.args[0].arg for c in inner):
                 starters[name] = nfn
     in_starter = {id(c) for nfn in starters.values() for c in walk_no_nested(nfn)}
     sites = [c for c in s.sites if id(c) not in in_starter] + [c for c in ast.walk(s.fn) if isinstance(c, ast.Call) and isinstance(c.func, ast.Name) and c.func.id in starters]
@@ -136,7 +156,7 @@ def r1(ctx: RuleCtx) -> None:
         inside = id(c) in s.in_loop
         ctx.require(inside, f'scheduling call {short(c)} is inside the `for {s.var} in {s.runners}` loop', mod, fq, c,
                     f'{short(c)} schedules a test outside the per-runner loop (a test can be started twice / out of protocol)')
-        argok = len(c.args) == 1 and isinstance(c.args[0], ast.Name) and c.args[0].id == s.var and not c.keywords
+        argok = _site_arg(s, c, starters) == s.var
         if inside:
             ctx.require(argok, f'{short(c)} schedules the loop variable', mod, fq, c,
                         f'{short(c)} does not schedule the runner of this iteration ({s.var})')
@@ -145,8 +165,7 @@ def r1(ctx: RuleCtx) -> None:
     colls = {s.is_barrier_all(c) for c in ast.walk(s.fn) if isinstance(c, ast.Call)} - {None}
     if len(colls) != 1:
         if not colls:
-            ctx.violation(mod, fq, 'await complete_all(<futures>)', 'no `await complete_all(<collection>)` barrier exists in _run_tests')
-            return
+            raise Undecided('_run_tests: no `await complete_all(<collection>)` found: the barrier primitive was renamed or moved')
         raise Undecided(f'_run_tests: barriers wait on several collections {sorted(colls)}')
     coll = T.cast(str, next(iter(colls)))
     stores = [n for n in ast.walk(s.fn) if isinstance(n, ast.Name) and n.id == coll and isinstance(n.ctx, (ast.Store, ast.Del))]
@@ -206,7 +225,18 @@ def r1(ctx: RuleCtx) -> None:
         rec = [i for i, c in enumerate(after) if isinstance(c.func, ast.Attribute) and c.func.attr in ('append', 'appendleft', 'add')
                and isinstance(c.func.value, ast.Name) and c.func.value.id == coll and len(c.args) == 1 and isinstance(c.args[0], ast.Name) and c.args[0].id == fut]
         problems: T.List[str] = []
+
+        def opaque_await(cs: T.List[ast.Call]) -> T.Optional[ast.Call]:
+            """An awaited call on this path that is none of the known primitives (it may wait for tests in a way this rule does not see)."""
+            for c in cs:
+                if id(c) in s.awaited and not (isinstance(c.func, ast.Name) and c.func.id in ('complete', 'complete_all')) and c is not sc:
+                    return c
+            return None
         if fut is not None and not rec:
+            handed = [c for c in after if any(isinstance(a, ast.Name) and a.id == fut for a in list(c.args) + [k.value for k in c.keywords])
+                      and not (isinstance(c.func, ast.Name) and c.func.id in ('complete', 'complete_all'))]
+            if handed:
+                raise Undecided(f'_run_tests: the future is handed to {short(handed[0])}, which this rule does not follow')
             problems.append(f'the future {fut} is not added to {coll}: the barriers do not wait for it')
         serial = row.conds.get(par) is not True
         if serial:
@@ -215,15 +245,21 @@ def r1(ctx: RuleCtx) -> None:
                 others = [a for a in row.conds if a != par and coll in names_in(ast.parse(_atom_src(a), mode='eval'))]
                 if others:
                     raise Undecided(f'_run_tests: the barrier before a serial test depends on {others}')
+                oa = opaque_await(before)
+                if oa is not None:
+                    raise Undecided(f'_run_tests: `await {short(oa)}` precedes the scheduling; this rule cannot tell whether it waits for the running tests')
                 problems.append(f'a test that may be non-parallel is scheduled without `await complete_all({coll})` first: it can overlap a running test')
             if back and not inline:
                 done_one = [c for c in after if id(c) in s.awaited and isinstance(c.func, ast.Name) and c.func.id == 'complete'
-                            and len(c.args) == 1 and isinstance(c.args[0], ast.Name) and c.args[0].id == fut]
+                            and [norm(x) for x in (_positional(c, mod.func('complete')) or [])] == [fut]]
                 done_all = [i for i, c in enumerate(after) if s.is_barrier_all(c) == coll and rec and i > rec[0]]
                 if not done_one and not done_all:
                     unknown_waits = [c for c in after if id(c) in s.awaited and fut in names_in(c)]
                     if unknown_waits:
                         raise Undecided(f'_run_tests: unknown way of waiting for the serial test: {short(unknown_waits[0])}')
+                    oa = opaque_await(after)
+                    if oa is not None:
+                        raise Undecided(f'_run_tests: `await {short(oa)}` follows the scheduling; this rule cannot tell whether it waits for the serial test')
                     problems.append(f'the next iteration starts without `await complete({fut})`: the following test can overlap a non-parallel one')
         if problems:
             for p in problems:
@@ -240,9 +276,23 @@ def r1(ctx: RuleCtx) -> None:
     if len(joins) != 1:
         raise Undecided('_run_tests: loop exit not found in the CFG')
     ok = bool(balls) and cfg.must_pass(joins[0], cfg.exit_return, balls)
+    if not ok:
+        other = [a.value for a in ast.walk(s.fn) if isinstance(a, ast.Await) and id(a) not in s.in_loop and isinstance(a.value, ast.Call)
+                 and coll in names_in(a.value) and s.is_barrier_all(a.value) != coll and not any(a.value is x for n_ in s.nested.values() for x in ast.walk(n_))]
+        if other:
+            raise Undecided(f'_run_tests: `await {short(other[0])}` after the loop may be the final barrier; this rule does not follow it')
     ctx.require(ok, f'every path from the end of the loop to the return passes `await complete_all({coll})`', mod, fq,
                 f'final await complete_all({coll})', f'_run_tests can return (and the totals be printed) while scheduled tests are still running: '
                 f'no `await complete_all({coll})` on some path after the loop', s.loop)
+
+
+def _site_arg(s: Sched, c: ast.Call, starters: T.Optional[T.Dict[str, T.Any]] = None) -> T.Optional[str]:
+    """The single argument (a plain name) of a call of a runner closure / starter, bound by the callee's signature."""
+    callee = s.closures[c.func.id][0] if c.func.id in s.closures else (starters or {}).get(c.func.id) or s.nested.get(c.func.id)   # type: ignore[union-attr]
+    args = _positional(c, callee) if callee is not None else None
+    if args is not None and len(args) == 1 and isinstance(args[0], ast.Name):
+        return args[0].id
+    return None
 
 
 def _inline_starters(stmts: T.List[ast.stmt], starters: T.Dict[str, T.Any]) -> T.List[ast.stmt]:
@@ -388,17 +438,27 @@ def _inline_call(callee: T.Any, call: ast.Call, target: T.Callable[[], ast.expr]
     params = [a.arg for a in g.args.args]
     if skip_self and params and params[0] == 'self':
         params = params[1:]
-    if call.keywords or len(call.args) != len(params) or any(attr_chain(a) is None for a in call.args) or g.args.vararg or g.args.kwarg or g.args.kwonlyargs:
+    bound_args = _positional(call, callee)
+    if bound_args is None or len(bound_args) != len(params) or any(attr_chain(a) is None for a in bound_args) or g.args.vararg or g.args.kwarg or g.args.kwonlyargs:
         raise Undecided(f'{what}: cannot bind the arguments of {short(call)}')
     stored = {n.id for n in walk_no_nested(g) if isinstance(n, ast.Name) and isinstance(n.ctx, ast.Store)}
     if stored & set(params):
         raise Undecided(f'{what}: {callee.name} rebinds its parameter')
-    sub = tables._Subst({p: a for p, a in zip(params, call.args)})
+    sub = tables._Subst({p: a for p, a in zip(params, bound_args)})
     body = [sub.visit(st) for st in g.body]
     out = _ret2assign(body, target, what)
     for st in out:
         ast.fix_missing_locations(st)
     return out
+
+
+def _self_call_method(ctx: RuleCtx, mod: Module, cls: str, e: ast.AST) -> T.Optional[T.Any]:
+    """`self.m(<plain arguments>)` with m a plain method found through the MRO of cls -> its definition."""
+    if isinstance(e, ast.Call) and isinstance(e.func, ast.Attribute) and isinstance(e.func.value, ast.Name) and e.func.value.id == 'self':
+        r = ctx.repo.find_method(mod, mod.cls(cls), e.func.attr)
+        if r is not None and not decorator_names(r[2]) and isinstance(r[2], ast.FunctionDef):
+            return r[2]
+    return None
 
 
 def _self_method_call(ctx: RuleCtx, mod: Module, cls: str, e: ast.AST) -> T.Optional[T.Any]:
@@ -564,7 +624,7 @@ def r2(ctx: RuleCtx) -> None:
     cfg_fn = CFG(s.fn)
     for name, st in sems.items():
         call = T.cast(ast.Call, st.value)
-        size = call.args[0] if call.args else (call.keywords[0].value if call.keywords else None)
+        size = call.args[0] if call.args else next((k.value for k in call.keywords if k.arg == 'value'), None)
         ctx.require(size is not None and attr_chain(size) == 'self.options.num_processes', f'semaphore {name} is sized by self.options.num_processes', mod, fq, st,
                     f'the job semaphore is created with {short(size)} instead of the requested number of jobs (self.options.num_processes)')
         stores = [n for n in ast.walk(s.fn) if isinstance(n, ast.Name) and n.id == name and isinstance(n.ctx, ast.Store)]
@@ -596,6 +656,13 @@ def r2(ctx: RuleCtx) -> None:
             n_runs += 1
             rc = [c for c in walk_no_nested(rn.expr()) if isinstance(c, ast.Call) and is_run(c)][0]   # type: ignore[arg-type]
             held = bool(enters) and cfg.dominated_by_any(rn, enters) and not any(cfg.can_reach(x, rn) for x in exits)
+            if not held:
+                # other ways of holding a semaphore (explicit acquire, a wrapping context manager) are not followed
+                acq = [c for c in ast.walk(cl) if isinstance(c, ast.Call) and call_method(c) == 'acquire']
+                unk = [w for w in ast.walk(cl) if isinstance(w, ast.AsyncWith) and id(w) not in held_withs
+                       and not any(isinstance(i.context_expr, ast.Call) and (call_name(i.context_expr) or '').endswith('Semaphore') for i in w.items)]
+                if acq or unk:
+                    raise Undecided(f'{cq}: the job limit is taken by {short(acq[0] if acq else unk[0].items[0].context_expr)}, an idiom this rule does not follow')
             ctx.require(held, f'{cname}: {short(rc)} runs with the job semaphore held', mod, cq, rc,
                         f'{short(rc)} is reachable without holding `async with <semaphore>`: more than num_processes tests can run at once')
             ctx.require(id(rc) in awaited, f'{cname}: {short(rc)} is awaited inside the semaphore', mod, cq, 'await of ' + norm(rc),
@@ -613,6 +680,9 @@ def r2(ctx: RuleCtx) -> None:
             idx = min(i for i, ev in enumerate(pth.events) if any(isinstance(c, ast.Call) and is_run(c) for r in _event_roots(ev) for c in walk_no_nested(r)))
             seen = {norm(ev.node): ev.val for ev in pth.events[:idx] if ev.kind == 'cond'}
             if not any(seen.get(f) is False for f in flags):
+                opaque = [ev.node for ev in pth.events[:idx] if ev.kind == 'cond' and any(isinstance(c, ast.Call) for c in ast.walk(ev.node))]
+                if opaque:
+                    raise Undecided(f'{cq}: `{short(opaque[0])}` is tested before {p}.run(); it may consult the cancellation flag')
                 bad = pth
         if np_:
             ctx.require(bad is None, f'{cname}: every path to {p}.run() has seen the cancellation flag ({"/".join(sorted(flags))}) false', mod, cq,
@@ -704,12 +774,68 @@ def _member_name(text: str, enum: str = 'TestResult') -> T.Optional[str]:
     return text[len(enum) + 1:] if text.startswith(enum + '.') and text.count('.') == 1 else None
 
 
-def _member_set(ctx: RuleCtx, mod: Module, text: str) -> T.Optional[T.Set[str]]:
-    """Fold a constant container of TestResult members written in the source."""
-    try:
-        v = fold_expr(ctx.repo, mod, ast.parse(text, mode='eval').body)
-    except (Undecided, SyntaxError):
+def _class_const(ctx: RuleCtx, mod: Module, cls: str, e: ast.AST) -> T.Any:
+    """Fold `self.X` / `cls.X` / `Class.X` / `X` where X is a class- or module-level constant table (found through the MRO of cls)."""
+    ch = attr_chain(e)
+    if ch is None:
+        raise Undecided(f'not a constant table: {short(e)}')
+    parts = ch.split('.')
+    if len(parts) == 2 and (parts[0] in ('self', 'cls') or mod.has_cls(parts[0])):
+        owner = cls if parts[0] in ('self', 'cls') else parts[0]
+        for m_, c_ in ctx.repo.mro(mod, mod.cls(owner)):
+            if m_.has_assign(parts[1], c_):
+                return fold_expr(ctx.repo, m_, m_.assign_value(parts[1], c_), cls=c_.name)
+        raise Undecided(f'no class-level constant {ch}')
+    return fold_expr(ctx.repo, mod, e)
+
+
+def _const_node(v: T.Any) -> ast.expr:
+    if isinstance(v, EnumMember):
+        return ast.Attribute(value=ast.Name(id=v.cls, ctx=ast.Load()), attr=v.name, ctx=ast.Load())
+    if isinstance(v, (int, str, bool)) or v is None:
+        return ast.Constant(value=v)
+    raise Undecided(f'table entry {v!r} is not a constant this rule understands')
+
+
+def _lookup_to_chain(ctx: RuleCtx, mod: Module, cls: str, st: ast.Assign) -> T.Optional[T.List[ast.stmt]]:
+    """`x = TABLE[k]` / `x = TABLE.get(k, d)` over a constant table -> `if k == key1: x = v1 elif ... else: x = d / raise KeyError`
+    (an if/elif chain over constants and a constant lookup table are the same decision table; policy form c)."""
+    v = st.value
+    if isinstance(v, ast.Subscript) and not isinstance(v.slice, ast.Slice):
+        tab_e, key_e, default = v.value, v.slice, None
+    elif isinstance(v, ast.Call) and isinstance(v.func, ast.Attribute) and v.func.attr == 'get' and len(v.args) in (1, 2) and not v.keywords:
+        tab_e, key_e = v.func.value, v.args[0]
+        default = v.args[1] if len(v.args) == 2 else ast.Constant(value=None)
+    else:
         return None
+    try:
+        table = _class_const(ctx, mod, cls, tab_e)
+    except Undecided:
+        return None
+    if not isinstance(table, dict) or not table:
+        return None
+    tail: T.List[ast.stmt] = [ast.Assign(targets=st.targets, value=default, lineno=st.lineno, col_offset=0)] if default is not None else \
+        [ast.Raise(exc=ast.Call(func=ast.Name(id='KeyError', ctx=ast.Load()), args=[], keywords=[]), cause=None)]
+    chain = tail
+    for k, val in reversed(list(table.items())):
+        op: ast.cmpop = ast.Is() if isinstance(k, EnumMember) else ast.Eq()
+        test = ast.Compare(left=tables._copy(key_e), ops=[op], comparators=[_const_node(k)])
+        chain = [ast.If(test=test, body=[ast.Assign(targets=st.targets, value=_const_node(val), lineno=st.lineno, col_offset=0)], orelse=chain)]
+    for x in chain:
+        ast.copy_location(x, st)
+        ast.fix_missing_locations(x)
+    return chain
+
+
+def _member_set(ctx: RuleCtx, mod: Module, text: str, cls: str = 'TestRun') -> T.Optional[T.Set[str]]:
+    """Fold a constant container of TestResult members written in the source (a display, a named constant, the keys of a table)."""
+    try:
+        v = _class_const(ctx, mod, cls, ast.parse(text, mode='eval').body) if attr_chain(ast.parse(text, mode='eval').body) else \
+            fold_expr(ctx.repo, mod, ast.parse(text, mode='eval').body)
+    except (Undecided, SyntaxError, AnchorMissing):
+        return None
+    if isinstance(v, dict):
+        v = list(v.keys())
     if isinstance(v, (set, frozenset, tuple, list)) and all(isinstance(x, EnumMember) and x.cls == 'TestResult' for x in v):
         return {x.name for x in v}
     return None
@@ -729,7 +855,7 @@ def _method_member_set(ctx: RuleCtx, mod: Module, meth: str) -> T.Set[str]:
     raise Undecided(f'TestResult.{meth} is not a membership test in a constant set of members')
 
 
-def _res_pred(ctx: RuleCtx, mod: Module, a: Atom, subject: str) -> T.Optional[T.Set[str]]:
+def _res_pred(ctx: RuleCtx, mod: Module, a: Atom, subject: str, cls: str = 'TestRun') -> T.Optional[T.Set[str]]:
     """If atom `a` is a predicate on the enum-valued `subject` against constants: the members for which it is true."""
     if a.kind in ('cmp', 'is'):
         ops = a.args[1:] if a.kind == 'cmp' else a.args
@@ -740,7 +866,7 @@ def _res_pred(ctx: RuleCtx, mod: Module, a: Atom, subject: str) -> T.Optional[T.
             m = _member_name(other)
             return {m} if m else None
     if a.kind == 'in' and a.args[0] == subject:
-        return _member_set(ctx, mod, a.args[1])
+        return _member_set(ctx, mod, a.args[1], cls)
     if a.kind == 'isinstance' and a.args[0] == subject and a.args[1] == ('TestResult',):
         return set(_enum_names(mod, 'TestResult'))
     if a.kind == 'truth' and a.args[0].startswith(subject + '.') and a.args[0].endswith('()'):
@@ -790,7 +916,11 @@ def _res_rows(ctx: RuleCtx, mod: Module, fn: T.Any, qn: str) -> T.List[ResRow]:
                 if g is not None:
                     if any(isinstance(n, ast.Attribute) and isinstance(n.ctx, (ast.Store, ast.Del)) for n in ast.walk(g)):
                         raise Undecided(f'{qn}: the helper {g.name} changes object state')
-                    out.extend(_inline_call(g, T.cast(ast.Call, st.value), lambda: ast.Attribute(value=ast.Name(id='self', ctx=ast.Load()), attr='res', ctx=ast.Store()), qn, True))
+                    out.extend(expand(_inline_call(g, T.cast(ast.Call, st.value), lambda: ast.Attribute(value=ast.Name(id='self', ctx=ast.Load()), attr='res', ctx=ast.Store()), qn, True)))
+                    continue
+                lk = _lookup_to_chain(ctx, mod, cls, st)
+                if lk is not None:
+                    out.extend(lk)
                     continue
             for field in ('body', 'orelse'):
                 sub = getattr(st, field, None)
@@ -809,7 +939,7 @@ def _res_rows(ctx: RuleCtx, mod: Module, fn: T.Any, qn: str) -> T.List[ResRow]:
         for ev in p.events:
             if ev.kind == 'cond':
                 a, v = tables.canon(ev.node, ev.val)
-                pred = _res_pred(ctx, mod, a, RES)
+                pred = _res_pred(ctx, mod, a, RES, cls)
                 if pred is not None:
                     if cur is None:
                         row.init.append((frozenset(pred), v))
@@ -914,7 +1044,7 @@ def _check_res_table(ctx: RuleCtx, mod: Module, qn: str, fn: T.Any, kind: str, m
             if kind in ('exitcode', 'tap') and xfail:
                 continue
             fired = _fire(rows, m, truth)
-            finals = {r.final for r in fired}
+            finals = {('<raises>' if r.outcome == 'raise' else r.final) for r in fired}
             if not fired:
                 raise Undecided(f'{qn}: no row for an incoming {m}')
             if len(finals) != 1:
@@ -960,8 +1090,27 @@ def _writes_res(fn: T.Any) -> bool:
 def _delegates(ctx: RuleCtx, mod: Module, qn: str, fn: T.Any, callee: str) -> None:
     """Every normal path of fn passes the call `callee()`, and self.res is not written after it."""
     cfg = CFG(fn)
-    calls = cfg.nodes_with_call(lambda c: norm(c.func) == callee)
+    meth = callee.split('.')[-1]
+
+    def is_delegate(c: ast.Call) -> bool:
+        f = c.func
+        if not (isinstance(f, ast.Attribute) and f.attr == meth):
+            return False
+        if callee.startswith('super()'):
+            if isinstance(f.value, ast.Call) and isinstance(f.value.func, ast.Name) and f.value.func.id == 'super':
+                return True
+        elif isinstance(f.value, ast.Name) and f.value.id == 'self':
+            return True
+        # Class.meth(self, ...) spelling
+        return isinstance(f.value, ast.Name) and mod.has_cls(f.value.id) and bool(c.args) and isinstance(c.args[0], ast.Name) and c.args[0].id == 'self'
+    calls = cfg.nodes_with_call(is_delegate)
     ok = bool(calls) and cfg.dominated_by_any(cfg.exit_return, calls)
+    if not ok:
+        others = [c for c in walk_no_nested(fn) if isinstance(c, ast.Call) and not is_delegate(c) and isinstance(c.func, ast.Attribute) and (
+            (isinstance(c.func.value, ast.Name) and (c.func.value.id == 'self' or mod.has_cls(c.func.value.id)) and any(mod.has_func(f'{k}.{c.func.attr}') for k in mod.classes()))
+            or (isinstance(c.func.value, ast.Call) and isinstance(c.func.value.func, ast.Name) and c.func.value.func.id == 'super'))]
+        if others:
+            raise Undecided(f'{qn}: {short(others[0])} may reach {callee}(); this rule does not follow it')
     ctx.require(ok, f'{qn}: every path to the return passes {callee}()', mod, qn, f'{callee}() on every path',
                 f'{qn} can return without calling {callee}(): the rest of the classification (should_fail inversion) is skipped', fn)
     writes = [n for n in cfg.nodes if n.kind == 'stmt' and any(isinstance(x, ast.Attribute) and isinstance(x.ctx, ast.Store) and attr_chain(x) == RES for x in walk_no_nested(n.ast))]
@@ -999,10 +1148,9 @@ def r3a(ctx: RuleCtx) -> None:
         kinds = ['pass' if not _writes_res(f) else '?' for _, f in chain[:-1]]
         want_kinds = KIND[proto]
         shape_ok = len(kinds) == len(want_kinds) and all(k == 'pass' if w == 'pass' else k == '?' for k, w in zip(kinds, want_kinds))
-        ctx.require(shape_ok, f'protocol {proto}: {cls} classifies through {[q for q, _ in chain]}', mod, f'{cls}.complete', f'complete() chain of protocol {proto}',
-                    f'protocol {proto} is classified by {[q for q, _ in chain]}; the documented rule needs {want_kinds or ["nothing"]} before {base_q}', mod.cls(cls))
         if not shape_ok:
-            continue
+            raise Undecided(f'protocol {proto}: the complete() chain {[q for q, _ in chain]} has another shape than the reference {want_kinds}')
+        ctx.ok(f'protocol {proto}: {cls} classifies through {[q for q, _ in chain]}')
         for (q, f), k in zip(chain[:-1], want_kinds):
             if id(f) in done:
                 continue
@@ -1074,6 +1222,7 @@ def r3b(ctx: RuleCtx) -> None:
         return vals[-1] if vals else '<unset>'
     TO, MU = 'test.timeout', 'options.timeout_multiplier'
     n = 0
+    no_outcome: T.List[str] = []
     mism: T.Dict[str, str] = {}
     holds = {'gt': ('pos',), 'le': ('neg', 'zero'), 'lt': ('neg',), 'ge': ('zero', 'pos')}   # ordering fact vs 0 -> sign classes
     for inter, to_s, mu_s in itertools.product((False, True), ('none', 'neg', 'zero', 'pos'), ('none', 'neg', 'zero', 'pos')):
@@ -1114,7 +1263,7 @@ def r3b(ctx: RuleCtx) -> None:
             outs.add(g)
         n += 1
         if not fired:
-            mism.setdefault('no normal outcome', world)
+            no_outcome.append(world)
         elif len(outs) != 1:
             raise Undecided(f'SingleTestRunner.__init__: several rows fire for {world}: {sorted(outs)}')
         elif outs != {want}:
@@ -1122,6 +1271,8 @@ def r3b(ctx: RuleCtx) -> None:
     for k, wit in mism.items():
         ctx.violation(mod, 'SingleTestRunner.__init__', f'timeout table: {k}', f'effective timeout for {wit} is {k} (documented: no timeout when interactive, undeclared, '
                       f'<= 0 or multiplier <= 0; declared value without multiplier; product otherwise)', expr)
+    if not mism and no_outcome:
+        raise Undecided(f'{where}: no row of the table covers {no_outcome[0]}')
     if not mism:
         ctx.ok(f'timeout table of {where} ({len(tab.rows)} rows, value passed to {cls}) equals the reference in {n} worlds of its atoms')
 
@@ -1194,6 +1345,19 @@ def r3c(ctx: RuleCtx) -> None:
             if cf is None or not cf[1] or cf[0] == 0:
                 raise Undecided(f'{fq}: sort key is not a linear function of .priority: {short(key)}')
             order = 'descending' if (cf[0] < 0) != reverse else 'ascending'
+        elif isinstance(key, ast.Name) and (mod.has_func(key.id) or any(isinstance(n, ast.FunctionDef) and n.name == key.id for n in walk_no_nested(fn))):
+            kf = mod.func(key.id) if mod.has_func(key.id) else [n for n in walk_no_nested(fn) if isinstance(n, ast.FunctionDef) and n.name == key.id][0]
+            krets = [r for r in walk_no_nested(kf) if isinstance(r, ast.Return) and r.value is not None]
+            if len(kf.args.args) != 1 or len(krets) != 1:
+                raise Undecided(f'{fq}: sort key function {key.id} is not a single expression of its argument')
+            cf = _coef(_inline_locals(kf, krets[0].value), kf.args.args[0].arg)
+            if cf is None or not cf[1] or cf[0] == 0:
+                raise Undecided(f'{fq}: sort key {key.id} is not a linear function of .priority')
+            order = 'descending' if (cf[0] < 0) != reverse else 'ascending'
+        elif isinstance(key, ast.Call) and (call_name(key) or '').split('.')[-1] == 'attrgetter' and len(key.args) == 1 and isinstance(key.args[0], ast.Constant):
+            if key.args[0].value != 'priority':
+                raise Undecided(f'{fq}: sorted by {key.args[0].value!r}')
+            order = 'descending' if reverse else 'ascending'
         elif key is None:
             raise Undecided(f'{fq}: sorted() without key')
         else:
@@ -1226,6 +1390,8 @@ def r3c(ctx: RuleCtx) -> None:
         if f not in slots:
             raise AnchorMissing(f'TestSerialisation has no field {f}')
         e = given.get(f)
+        if e is None:
+            raise Undecided(f'{fq}: no argument found for the TestSerialisation field {f}')
         ok = e is not None and f'attr:{tv}.{f}' in fl.origins(e) and not any(f'attr:{tv}.{g}' in fl.origins(e) for g in FIELDS if g != f)
         ctx.require(ok, f'TestSerialisation.{f} <- {tv}.{f}', mod, fq, f'TestSerialisation field {f}',
                     f'the serialised field {f} is filled from {short(e)} instead of {tv}.{f}', e if e is not None else b)
@@ -1410,6 +1576,19 @@ def r4(ctx: RuleCtx) -> None:
             and all(isinstance(st, ast.Expr) and isinstance(st.value, ast.Call) for st in n.ast.body)   # type: ignore[union-attr]
             and any(isinstance(c, ast.Call) and call_name(c) == f'{n.ast.target.id}.log' and any(isinstance(a, ast.Name) and a.id == fn.args.args[1].arg for a in c.args)   # type: ignore[union-attr]
                     for c in ast.walk(n.ast))]
+    if not (bool(logs) and cfg.dominated_by_any(cfg.exit_return, logs)):
+        # absence finding: only when nothing else in the function (or in a helper it hands the result to) touches the loggers
+        rp = fn.args.args[1].arg
+        elsewhere = [n for n in walk_no_nested(fn) if attr_chain(n) == 'self.loggers' and not any(n is x for lg in logs for x in ast.walk(lg.ast))]
+        helpers = []
+        for c in walk_no_nested(fn):
+            if isinstance(c, ast.Call) and isinstance(c.func, ast.Attribute) and isinstance(c.func.value, ast.Name) and c.func.value.id == 'self' \
+                    and any(isinstance(a, ast.Name) and a.id == rp for a in c.args):
+                r_ = ctx.repo.find_method(mod, mod.cls('TestHarness'), c.func.attr)
+                if r_ is None or any(attr_chain(x) == 'self.loggers' for x in ast.walk(r_[2])):
+                    helpers.append(c)
+        if elsewhere or helpers:
+            raise Undecided(f'{fq}: the loggers are reached through {short((elsewhere + helpers)[0])}, an idiom this rule does not follow')
     ctx.require(bool(logs) and cfg.dominated_by_any(cfg.exit_return, logs), 'every tallied result is passed to every logger (`for l in self.loggers: l.log(self, result)` on every path)',
                 mod, fq, 'logger loop on every path', 'process_test_result can return without passing the result to the loggers: testlog.json / console lose it', fn)
     # is_bad_result implies is_bad
@@ -1480,7 +1659,11 @@ def r4(ctx: RuleCtx) -> None:
     fl = Flow(runf)
     rr = [r for r in ast.walk(runf) if isinstance(r, ast.Return) and r.value is not None and any(o.startswith('call:') and o.endswith('.doit') for o in fl.origins(r.value))]
     pure = [r for r in rr if isinstance(r.value, ast.Call) or isinstance(r.value, ast.Name)]
-    ctx.require(bool(pure), 'run() returns the value of doit()', mod, 'run', 'return th.doit()', 'run() does not return the status computed by TestHarness.doit()', runf)
+    if not pure:
+        dropped = [st for st in ast.walk(runf) if isinstance(st, ast.Expr) and isinstance(st.value, ast.Call) and call_method(st.value) == 'doit']
+        if not dropped:
+            raise Undecided('run(): no `return <harness>.doit()` found and no discarded doit() call either: the call moved')
+    ctx.require(bool(pure), 'run() returns the value of doit()', mod, 'run', 'return th.doit()', 'run() calls doit() and discards the status it computed', runf)
 
     # (c) summary: the label -> counter table, and every positive counter is printed
     sq = 'TestHarness.summary'
@@ -1493,8 +1676,10 @@ def r4(ctx: RuleCtx) -> None:
         c = counter_of.get(name)
         if c is None:
             continue
+        if table.get(lab) is None and (lab in table or any(attr_chain(n) == c for n in walk_no_nested(sf))):
+            raise Undecided(f'{sq}: the counter {c} is used, but not under the label "{lab}" in the table')
         ctx.require(table.get(lab) == c, f'summary line "{lab}" shows the counter of {name} ({c})', mod, sq, f'summary line {lab}',
-                    f'the summary line "{lab}" shows {table.get(lab)}; the counter fed by {name} results is {c}', dicts[0])
+                    (f'the summary line "{lab}" shows {table.get(lab)}; the counter fed by {name} results is {c}' if table.get(lab) else f'the counter {c} fed by {name} results appears nowhere in summary(): it is never printed'), dicts[0])
     holder = [st.targets[0].id for st in sf.body if isinstance(st, ast.Assign) and st.value is dicts[0] and isinstance(st.targets[0], ast.Name)]
     loops = [st for st in sf.body if isinstance(st, ast.For) and holder and isinstance(st.iter, ast.Call) and call_name(st.iter) == f'{holder[0]}.items'
              and isinstance(st.target, ast.Tuple) and len(st.target.elts) == 2 and all(isinstance(e, ast.Name) for e in st.target.elts)]
@@ -1566,6 +1751,8 @@ def r5(ctx: RuleCtx) -> None:
                 f'for an argument with [{mism[0] if mism else ""}] test_slice gives `{mism[1] if mism else ""}`; expected `{mism[2] if mism else ""}`', tsf)
     adds = [c for c in ast.walk(mod.func('add_arguments')) if isinstance(c, ast.Call) and call_method(c) == 'add_argument' and c.args
             and isinstance(c.args[0], ast.Constant) and c.args[0].value == '--slice']
+    if len(adds) != 1:
+        raise Undecided("add_arguments: no single add_argument('--slice', ...) call found")
     ok = len(adds) == 1 and any(k.arg == 'type' and isinstance(k.value, ast.Name) and k.value.id == 'test_slice' for k in adds[0].keywords) \
         and not any(k.arg == 'dest' for k in adds[0].keywords)
     ctx.require(ok, '--slice is parsed by test_slice into options.slice', mod, 'add_arguments', "add_argument('--slice')", '--slice is not parsed by test_slice into options.slice')
@@ -1581,6 +1768,14 @@ def r5(ctx: RuleCtx) -> None:
     if not (isinstance(last, ast.Return) and isinstance(last.value, ast.Name)):
         raise Undecided(f'{gq}: does not end with `return <list of tests>`')
     var = last.value.id
+    ifbody: T.List[ast.stmt] = []
+    for st in st_if.body:
+        g = _self_call_method(ctx, mod, 'TestHarness', st.value) if isinstance(st, ast.Assign) and len(st.targets) == 1 and isinstance(st.targets[0], ast.Name) and st.targets[0].id == var else None
+        if g is not None and not any(isinstance(n, (ast.Yield, ast.YieldFrom)) for n in walk_no_nested(g)):
+            ifbody.extend(_inline_call(g, T.cast(ast.Call, st.value), lambda: ast.Name(id=var, ctx=ast.Store()), gq, True))   # the slicing step lives in a helper
+        else:
+            ifbody.append(st)
+    st_if = ast.If(test=st_if.test, body=ifbody, orelse=st_if.orelse, lineno=st_if.lineno, col_offset=st_if.col_offset, end_lineno=st_if.end_lineno, end_col_offset=st_if.end_col_offset)
     unp = [st for st in st_if.body if isinstance(st, ast.Assign) and len(st.targets) == 1 and isinstance(st.targets[0], ast.Tuple) and len(st.targets[0].elts) == 2
            and all(isinstance(e, ast.Name) for e in st.targets[0].elts) and (attr_chain(st.value) or '').endswith('options.slice')]
     if len(unp) != 1:
@@ -1624,6 +1819,18 @@ def r5(ctx: RuleCtx) -> None:
 # R6: at-most-once selection
 # ---------------------------------------------------------------------------
 
+def _bind_args(call: ast.Call, params: T.List[str]) -> T.Dict[str, ast.AST]:
+    """Arguments of an internal call bound to the callee's parameters by position or keyword."""
+    if any(isinstance(a, ast.Starred) for a in call.args) or any(k.arg is None for k in call.keywords) or len(call.args) > len(params):
+        raise Undecided(f'cannot bind the arguments of {short(call)}')
+    out: T.Dict[str, ast.AST] = dict(zip(params, call.args))
+    for k in call.keywords:
+        if k.arg not in params or k.arg in out:
+            raise Undecided(f'cannot bind the arguments of {short(call)}')
+        out[T.cast(str, k.arg)] = k.value
+    return out
+
+
 def r6(ctx: RuleCtx) -> None:
     mod = ctx.repo.module(MTEST)
     gq = 'TestHarness.get_tests'
@@ -1664,10 +1871,31 @@ def r6(ctx: RuleCtx) -> None:
                 ctx.ok(f'`{short(st, 90)}` filters one source: each candidate at most once')
             elif isinstance(inner, ast.Call) and isinstance(inner.func, ast.Attribute) and attr_chain(inner.func.value) == 'self' and mod.has_func(f'TestHarness.{inner.func.attr}'):
                 g = mod.func(f'TestHarness.{inner.func.attr}')
-                pos = [i for i, a in enumerate(inner.args) if isinstance(a, ast.Name) and a.id == var or attr_chain(a) == 'self.tests']
-                if len(pos) != 1 or inner.keywords:
-                    raise Undecided(f'{gq}: cannot tell which argument of {short(inner)} carries the candidates')
                 params = [a.arg for a in g.args.args if a.arg != 'self']
+                bound = _bind_args(inner, params)
+                pos = [params.index(k) for k, a in bound.items() if (isinstance(a, ast.Name) and a.id == var) or attr_chain(a) == 'self.tests']
+                if len(pos) != 1:
+                    raise Undecided(f'{gq}: cannot tell which argument of {short(inner)} carries the candidates')
+                if not any(isinstance(n, (ast.Yield, ast.YieldFrom)) for n in walk_no_nested(g)):
+                    # a plain helper: each of its returns must be a sub-sequence / one-source filter of its parameter, which it must not grow
+                    cp = params[pos[0]]
+                    grows = [n for n in walk_no_nested(g) if (isinstance(n, ast.AugAssign) and isinstance(n.target, ast.Name) and n.target.id == cp)
+                             or (isinstance(n, ast.Call) and isinstance(n.func, ast.Attribute) and isinstance(n.func.value, ast.Name) and n.func.value.id == cp
+                                 and n.func.attr in ('extend', 'append', 'insert'))]
+                    if grows:
+                        raise Undecided(f'TestHarness.{g.name}: grows its argument ({short(grows[0])})')
+                    for r_ in walk_no_nested(g):
+                        if isinstance(r_, ast.Return) and r_.value is not None:
+                            rv = _inline_locals(g, r_.value)
+                            dupb = [b_ for b_ in ast.walk(rv) if isinstance(b_, ast.BinOp) and isinstance(b_.op, (ast.Add, ast.Mult)) and cp in names_in(b_)]
+                            if dupb:
+                                ctx.violation(mod, f'TestHarness.{g.name}', r_, f'`{short(r_)}` concatenates / repeats lists derived from the candidate tests: a test can be selected twice', r_)
+                            elif not ((isinstance(rv, ast.Subscript) and isinstance(rv.value, ast.Name) and rv.value.id == cp) or (isinstance(rv, ast.Name) and rv.id == cp)
+                                      or (isinstance(rv, (ast.ListComp,)) and len(rv.generators) == 1 and isinstance(rv.generators[0].iter, ast.Name) and rv.generators[0].iter.id == cp
+                                          and isinstance(rv.elt, ast.Name) and isinstance(rv.generators[0].target, ast.Name) and rv.elt.id == rv.generators[0].target.id)):
+                                raise Undecided(f'TestHarness.{g.name}: unknown way of building the selection: {short(r_)}')
+                    ctx.ok(f'`{short(st, 90)}` takes a sub-sequence / filter of its argument through {g.name}()')
+                    continue
                 gens.append((f'TestHarness.{inner.func.attr}', g, params[pos[0]]))
                 ctx.ok(f'`{short(st, 90)}` takes the tests from {inner.func.attr}({params[pos[0]]})')
             elif isinstance(inner, ast.Subscript) and isinstance(inner.value, ast.Name) and inner.value.id == var:
@@ -1693,6 +1921,8 @@ def r6(ctx: RuleCtx) -> None:
                 raise Undecided(f'{q}: `{short(y)}` does not yield the variable of a loop over {cand}')
             per_loop.setdefault(id(owner[0]), []).append(y)
         ylps = [lp for lp in loops if id(lp) in per_loop]
+        if not ylps:
+            raise Undecided(f'{q}: no loop over {cand} yields')
         ctx.require(len(ylps) == 1, f'{q}: one loop over {cand} yields', mod, q, f'loops over {cand} that yield',
                     f'{len(ylps)} loops over {cand} yield tests: the same test can be yielded by each of them', g)
         for lp in ylps:
@@ -1749,6 +1979,8 @@ def r7(ctx: RuleCtx) -> None:
                     if any(isinstance(x, ast.Name) and x.id == t.id for x in tg) and w.ast.value is not None \
                             and any(o.startswith('call:') and o.split('.')[-1] in CLOCKS for o in fl.origins(w.ast.value)):
                         fresh.append(w)
+                    elif any(isinstance(x, ast.Name) and x.id == t.id for x in tg) and w.ast.value is not None and any(isinstance(c2, ast.Call) for c2 in ast.walk(w.ast.value)):
+                        raise Undecided(f'{q}: `{short(w.ast)}` recomputes the budget through a call this rule does not follow')
             ctx.require(bool(fresh), f'{q}: the budget `{t.id}` of the repeated {call_name(c)} is re-derived from the clock inside the loop', mod, q,
                         f'stale timeout {t.id} in a repeated wait',
                         f'{short(c, 70)} is repeated in a loop with the caller\'s budget `{t.id}`, which is never recomputed from the clock inside the loop: every '
